@@ -778,14 +778,14 @@ def run(ctx):
     reported = set()
     for size, vname, c, probs, cls in k3:
         rep = dict(c.replay(), client=vname, problems=probs)
-        if cls:
+        if cls and cls in run.open_classes:
             run.finding(cls, f"{vname}: {probs[0]}", rep)
             continue
-        key = probs[0][:60]
+        key = (cls or "") + probs[0][:60]
         if key in reported or len(reported) >= 6:
             continue
         reported.add(key)
-        run.violation(f"{vname}: {probs[0]} (tree size {size})", rep)
+        run.violation((f"[{cls}; listed as fixed, it is back] " if cls else "") + f"{vname}: {probs[0]} (tree size {size})", rep)
     if k1 and not reported:
         k1.sort(key=lambda t: (t[0], t[1]))
         size, vname, c, d = k1[0]
